@@ -111,6 +111,16 @@ Definition roundQ (a : Q) (n : Z) : Q :=
   if Z.leb 0 n then Qred (inject_Z (round_half_even (a * inject_Z (10 ^ n))) / inject_Z (10 ^ n))
   else Qred (inject_Z (round_half_even (a / inject_Z (10 ^ (- n)))) * inject_Z (10 ^ (- n))).
 
+(* multiplicity(p, n): the exponent of p in n, for integers p >= 2 and n <> 0 (of |n|: the sign carries no factor) *)
+Fixpoint padic (fuel : nat) (p n : Z) : Z :=
+  match fuel with
+  | O => 0
+  | S f => if Z.eqb (n mod p) 0 then (1 + padic f p (n / p))%Z else 0%Z
+  end.
+Definition multiplicityQ (p n : Q) : option Q :=
+  if is_int p && is_int n && Z.leb 2 (to_int p) && negb (Z.eqb (to_int n) 0) && Z.ltb (Z.abs (to_int n)) (2 ^ 200)
+  then Some (inject_Z (padic 200 (to_int p) (Z.abs (to_int n)))) else None.
+
 Definition stdIo (o : op) (args : list Q) : option Q :=
   match o, args with
   | OAdd, _ => Some (Qred (fold_right (fun a b => Qred (a + b)) 0 args))
@@ -147,7 +157,13 @@ Definition stdIo (o : op) (args : list Q) : option Q :=
                    else if String.eqb f "Round" then Some (inject_Z (round_half_even a))
                    else Some (Qred (funQ f args))
   | OFun f, [a; n] => if String.eqb f "Round" && is_int n && Z.leb (Z.abs (to_int n)) 40 then Some (roundQ a (to_int n))
+                      else if String.eqb f "multiplicity" then multiplicityQ a n
                       else Some (Qred (funQ f args))
+  | OFun f, [] =>
+      (* the two mathematical constants, to 20 digits (values that went through them are compared with a tolerance) *)
+      if String.eqb f "<const>pi" then Some (314159265358979323846 # 100000000000000000000)
+      else if String.eqb f "<const>E" then Some (271828182845904523536 # 100000000000000000000)
+      else Some (Qred (funQ f args))
   | OFun f, _ => Some (Qred (funQ f args))
   | _, _ => None
   end.
